@@ -52,6 +52,7 @@ def ghost(en, summand):
     CS = table[key] = z3.Function(en.fresh_name('CSUM'), z3.IntSort(), z3.RealSort())
     en.assume(CS(0) == 0)
     en.assume(z3.ForAll([kq], z3.Implies(z3.And(kq >= 0, kq < N), CS(kq + 1) == CS(kq) + summand(kq)), patterns=[CS(kq + 1)]))
+  en.__dict__.setdefault('ghost_log', []).append((table[key], summand))        # in call order: contracts can pick up the code's own symbols
   return table[key]
 
 
@@ -349,6 +350,132 @@ def ghost_lemmas(en: E.Engine):
             z3.Implies(z3.And(S == Bk - B0, S1 == S + (Bk1 - Bk)), S1 == Bk1 - B0))
 
 
+XI = F('x.at')
+
+
+def integrals_contract(en: E.Engine):
+  """cumulative_sigma_integral (both directions, both cumulative-sum methods) and sigma_integral as ghost sums of x dsigma."""
+  from dinosaur import sigma_coordinates as sc
+  import jax.numpy as jnp
+  from vlib.pyvc.libspec import _reg
+  coords, vert = _coords(en)
+  # method='jax': jnp.cumsum / jnp.flip by their textbook contracts (A8), sharing the ghost symbol of the summed vector
+  def h_jcumsum(en_, y, axis=None, **k):
+    g = y.get
+    CS_ = ghost(en_, lambda k_: E._real(arrays._num(g(k_))))
+    return E.SymSeq(y.length, lambda i: CS_(E.to_z3(i) + 1), z3.RealSort(), 'jnp.cumsum')
+  _reg(en, jnp.cumsum, h_jcumsum, 'jnp.cumsum(y, axis)[k] == sum_{j<=k} y[j] (A8)')
+  x = _col(XI, 'x')
+  en.cover('requires: valid sigma coordinates')
+  CX = ghost(en, lambda j: XI(j) * d_(j))
+  k = en.int('k')
+  en.assume(z3.And(k >= 0, k < N))
+  res = {}
+  for method in ('dot', 'jax'):
+    for down in (True, False):
+      if method == 'jax' and not down:
+        continue           # reverse 'jax' goes through jnp.flip twice: covered by the bounded identities, not here
+      kind, r = en.invoke(en.load_function(sc.cumulative_sigma_integral), x, vert, -3, down, method)
+      if kind == 'raise' or not arrays._is_seq(r):
+        en.ensure(f'cumulative_sigma_integral(downward={down}, method={method}) returns a column ({r})', False)
+        return
+      res[(method, down)] = r
+  kind, tot = en.invoke(en.load_function(sc.sigma_integral), x, vert)
+  if kind == 'raise':
+    en.ensure(f'sigma_integral runs ({tot})', False)
+    return
+  tot = E._real(tot)
+  dn, up = res[('dot', True)], res[('dot', False)]
+  en.ensure('downward cumulative integral [k] == sum_{j<=k} x[j] dsigma[j]', dn.get(k) == CX(k + 1))
+  en.ensure('upward cumulative integral [k] == sum_{j>=k} x[j] dsigma[j] (total minus the part above)', up.get(k) == CX(N) - CX(k))
+  en.ensure('sigma_integral == sum over all layers', tot == CX(N))
+  en.ensure('the downward cumulative integral ends at the total integral', dn.get(N - 1) == tot)
+  en.ensure('the upward cumulative integral starts at the total integral', z3.Implies(CX(0) == 0, up.get(0) == tot))
+  en.ensure('downward[k] + upward[k] - total == x[k] dsigma[k] (the local layer contribution)',
+            z3.Implies(CX(k + 1) == CX(k) + XI(k) * d_(k), dn.get(k) + up.get(k) - tot == XI(k) * d_(k)))
+  en.ensure("cumsum_method 'jax' agrees with 'dot'", res[('jax', True)].get(k) == dn.get(k))
+  xs = E.SymSeq(N + 1, lambda i: XI(E.to_z3(i)), z3.RealSort(), 'x_long')
+  for fn in (sc.cumulative_sigma_integral, sc.sigma_integral, sc.cumulative_log_sigma_integral):
+    kind, r = en.invoke(en.load_function(fn), xs, vert)
+    en.ensure(f'{fn.__name__}: a column whose length differs from the layer count is rejected (ValueError)', z3.BoolVal(kind == 'raise' and r == 'ValueError'))
+
+
+def log_integral_contract(en: E.Engine):
+  """cumulative_log_sigma_integral(upward) is the documented trapezoid sum, and R times it is the geopotential operator (sparse form)."""
+  from dinosaur import primitive_equations as pe, sigma_coordinates as sc
+  coords, vert = _coords(en)
+  R = en.real('ideal_gas_constant')
+  x = _col(XI, 'temperature')
+  en.cover('requires: valid sigma coordinates')
+  kind, up = en.invoke(en.load_function(sc.cumulative_log_sigma_integral), x, vert, -3, False)
+  kind2, geo = en.invoke(en.load_function(pe.get_geopotential_diff), x, vert, R, 'sparse')
+  if 'raise' in (kind, kind2):
+    en.ensure(f'cumulative_log_sigma_integral / get_geopotential_diff run ({up}, {geo})', False)
+    return
+  LOG = matrix.LOG
+  dlog = lambda j: z3.If(j == N - 1, -LOG(c_(N - 1)), LOG(c_(j + 1)) - LOG(c_(j)))
+  integrand = lambda j: z3.If(j == N - 1, XI(N - 1), (XI(j + 1) + XI(j)) / 2)
+  a = lambda j: integrand(j) * dlog(j)
+  a2 = lambda j: z3.If(j >= 1, R * (alpha_(j) + alpha_(j - 1)), z3.RealVal(0)) * XI(j)
+  # the ghost sums the code itself created (in call order: the log integral first, then the geopotential's reverse cumulative sum); their
+  # summands are shown equal to the documented ones entry by entry, after which the documented recurrences hold for the code's symbols
+  (CA, a_code), (CT, a2_code) = en.ghost_log[-2], en.ghost_log[-1]
+  k = en.int('k')
+  en.assume(z3.And(k >= 0, k < N))
+  base = [N >= 1, k >= 0, k < N]
+  lastcases = [('k = N-1', [k == N - 1]), ('k < N-1', [k < N - 1])]
+  VM.ensure_cases(en, 'the log integral sums trapezoid(x)[j] * dlog(sigma)[j]: (x[j+1] + x[j]) / 2 against log sigma[j+1] - log sigma[j], x[N-1] against -log sigma[N-1]',
+                  base, lastcases, VM._pos(k - 1, k, k + 1), a_code(k) == a(k))
+  VM.ensure_cases(en, 'the geopotential sums R (alpha[j] + alpha[j-1]) T[j] (0 at j = 0)', base, [('k = 0', [k == 0]), ('k >= 1', [k >= 1])], VM._pos(k - 1, k, k + 1), a2_code(k) == a2(k))
+  en.ensure('cumulative_log_sigma_integral(upward)[k] is the suffix sum of that vector', up.get(k) == CA(N) - CA(k))
+  geo_spec = CT(N) - CT(k) + (R * alpha_(k) - z3.If(k >= 1, R * (alpha_(k) + alpha_(k - 1)), z3.RealVal(0))) * XI(k)
+  VM.ensure_cases(en, "get_geopotential_diff(method='sparse')[k] == sum_{j>=k} R (alpha[j] + alpha[j-1]) T[j] + R (alpha[k] - alpha2[k]) T[k]", base,
+                  [('k = 0', [k == 0]), ('k >= 1', [k >= 1])], VM._pos(k - 1, k, k + 1), geo.get(k) == geo_spec)
+  # claim(k):  R (CA(N) - CA(k)) == geo_spec(k)   by downward induction on k
+  base = [N >= 1, k >= 0, k < N]
+  rec = lambda C_, f, t: C_(t + 1) == C_(t) + f(t)
+  VM.ensure_cases(en, 'induction base (k = N-1): R * trapezoid suffix sum == geopotential row', base + [k == N - 1], [('N = 1', [N == 1]), ('N >= 2', [N >= 2])],
+                  [rec(CA, a, k), rec(CT, a2, k)] + VM._pos(k - 1, k, k + 1), z3.Implies(z3.And(rec(CA, a, k), rec(CT, a2, k)), R * (CA(N) - CA(k)) == geo_spec),
+                  rules=None, timeout_ms=60000)
+  geo_next = z3.substitute(geo_spec, (k, k + 1))
+  VM.ensure_cases(en, 'induction step (k < N-1): claim(k+1) and the two recurrences at k => claim(k)', base + [k < N - 1],
+                  [('k = 0, N = 2', [k == 0, N == 2]), ('k = 0, N >= 3', [k == 0, N >= 3]), ('k >= 1, k = N-2', [k >= 1, k == N - 2]), ('k >= 1, k < N-2', [k >= 1, k < N - 2])],
+                  VM._pos(k - 1, k, k + 1, k + 2),
+                  z3.Implies(z3.And(R * (CA(N) - CA(k + 1)) == geo_next, rec(CA, a, k), rec(CT, a2, k)), R * (CA(N) - CA(k)) == geo_spec), timeout_ms=60000)
+  en.ensure('conclusion: R * cumulative_log_sigma_integral(upward)[k] == get_geopotential_diff[k] given claim(k)',
+            z3.Implies(R * (CA(N) - CA(k)) == geo_spec, R * up.get(k) == geo.get(k)))
+
+
+def replay_integrals(w):
+  import numpy as np
+  import jax
+  jax.config.update('jax_enable_x64', True)
+  import jax.numpy as jnp
+  from dinosaur import primitive_equations as pe, sigma_coordinates as sc
+  rng = np.random.RandomState(13)
+  msgs = []
+  for n in (1, 2, 5):
+    b = np.concatenate([[0.0], np.sort(rng.uniform(0.05, 0.95, n - 1)), [1.0]])
+    vert = sc.SigmaCoordinates(b)
+    x = rng.randn(n, 2, 3)
+    d = vert.layer_thickness[:, None, None]
+    for method in ('dot', 'jax'):
+      dn = np.asarray(sc.cumulative_sigma_integral(jnp.asarray(x), vert, cumsum_method=method))
+      up = np.asarray(sc.cumulative_sigma_integral(jnp.asarray(x), vert, downward=False, cumsum_method=method))
+      tot = np.asarray(sc.sigma_integral(jnp.asarray(x), vert))
+      e1 = np.max(np.abs(dn - np.cumsum(x * d, axis=0)))
+      e2 = np.max(np.abs(dn + up - tot - x * d))
+      e3 = np.max(np.abs(dn[-1:] - tot))
+      if max(e1, e2, e3) > 1e-12:
+        msgs.append(f'{n} layers {b.tolist()} method={method}: |down - prefix sums| = {e1:.2e}, |down + up - total - x dsigma| = {e2:.2e}, |down[-1] - total| = {e3:.2e}')
+    lg = 2.5 * np.asarray(sc.cumulative_log_sigma_integral(jnp.asarray(x), vert, downward=False))
+    for m in ('dense', 'sparse'):
+      geo = np.asarray(pe.get_geopotential_diff(jnp.asarray(x), vert, 2.5, method=m))
+      if np.max(np.abs(lg - geo)) > 1e-10:
+        msgs.append(f'{n} layers {b.tolist()}: |R * cumulative_log_sigma_integral(up) - get_geopotential_diff({m})| = {np.max(np.abs(lg - geo)):.2e}')
+  return bool(msgs), ('; '.join(msgs[:3]) if msgs else 'sigma integrals and the geopotential operator agree with their documented sums on the sampled columns')
+
+
 def replay_column(w):
   """Native re-run on a small grid with uneven levels: the real diagnostic state / omega term / log-pressure tendency against the
   documented vertical sums evaluated with numpy."""
@@ -404,6 +531,13 @@ def clauses():
                  [PE + 'PrimitiveEquations._t_omega_over_sigma_sp', 'dinosaur.sigma_coordinates.cumulative_sigma_integral'], rc(t_omega_contract, 2), replay=replay_column, group='pyvc-col'),
           Clause('smt:nodal_log_pressure_tendency == - sum_j u.grad(ln ps)[j] dsigma[j] (all layer counts)', 'smt',
                  [PE + 'PrimitiveEquations.nodal_log_pressure_tendency', 'dinosaur.sigma_coordinates.sigma_integral'], rc(log_pressure_contract, 2), replay=replay_column, group='pyvc-col'),
+      ],
+      'C13': [
+          Clause('smt:cumulative_sigma_integral / sigma_integral: prefix, suffix and total sums of x dsigma; ends at the total; down + up - total == local contribution; methods agree (all layer counts)', 'smt',
+                 ['dinosaur.sigma_coordinates.cumulative_sigma_integral', 'dinosaur.sigma_coordinates.sigma_integral', 'dinosaur.jax_numpy_utils.cumsum', 'dinosaur.jax_numpy_utils.reverse_cumsum'],
+                 rc(integrals_contract, 8), replay=replay_integrals, group='pyvc-col'),
+          Clause('smt:R * cumulative_log_sigma_integral(upward) == geopotential operator: documented trapezoid sum, downward induction over layers (all layer counts)', 'smt',
+                 ['dinosaur.sigma_coordinates.cumulative_log_sigma_integral', PE + 'get_geopotential_diff'], rc(log_integral_contract, 5), replay=replay_integrals, group='pyvc-col'),
       ],
       'C04': [
           Clause('smt:temperature equation (vertical advection + adiabatic + implicit) independent of the reference profile at every level of every column (all layer counts)', 'smt',
